@@ -86,7 +86,7 @@ def _near(rng, op: str) -> str:
 class Driver:
     def __init__(self, ctx, feat_factory: Callable[[random.Random], RG.Feat], *, flags="all4",
                  styles=("mixed",), quirks=(), per_listing=8, mutate=0.5, extra=None, classify=None,
-                 accept=None, interesting=None):
+                 accept=None, interesting=None, judge_model=True):
         self.ctx = ctx
         self.feat_factory = feat_factory
         self.flags = flags
@@ -98,6 +98,9 @@ class Driver:
         self.classify = classify      # (doc, prep, outcome) -> finding key or None (beyond quirk attribution)
         self.accept = accept          # (pattern) -> bool: generator-side filter
         self.interesting = interesting  # (pattern) -> bool: additional condition for a case to count as non-trivial
+        self.judge_model = judge_model
+        self.count_model_nontrivial = False
+        self.macros = None
         self.ws = real.Workspace()
         self.max_cost = 400
         self.prep: Optional[dsl.Prepared] = None
@@ -144,21 +147,23 @@ class Driver:
             doc["pattern"] = pattern
             text = real.dump_rule(doc)
             try:
-                o = dsl.evaluate(self.ws, prep, text)
+                o = dsl.evaluate(self.ws, prep, text, macros=self.macros)
             except M.Unsupported as e:
                 ctx.inconc(f"model unsupported: {str(e)[:40]}")
                 return False
             ctx.ran()
             any_found = any_found or o.found_model
             nontrivial = (o.found_model or base_found) and (self.interesting is None or self.interesting(pattern))
-            ctx.case((text, prep.expect), nontrivial, stratum=f"{self.style}/{desc.split(':')[0]}",
+            ctx.case((text, prep.expect), nontrivial and (self.judge_model or self.count_model_nontrivial), stratum=f"{self.style}/{desc.split(':')[0]}",
                      outcome=("exc" if o.status == "exc" else "found" if o.found_real else "not found"))
             ctx.event("hits_located", len(o.real_windows))
             if o.found_model:
                 ctx.sample("positive", {"rule": text, "listing_head": prep.text[:600], "hits": o.hits[:2], "model_windows": sorted(o.model_windows)[:5]})
             elif base_found:
                 ctx.sample("near-miss", {"rule": text, "mutation": desc, "listing_head": prep.text[:600], "real": o.found_real})
-            if o.verdict != "held":
+            if o.verdict != "held" and not self.judge_model:
+                ctx.event("model_disagreement_left_to_C01_C05")
+            elif o.verdict != "held":
                 key = None
                 if self.quirks:
                     key = dsl.attribute(yaml.safe_load(text), prep, o, self.quirks)
